@@ -145,7 +145,7 @@ def run(tier):
         cat_rows = sorted(host_out[hosts[0]]["catalogue"])
         for h in hosts:
             for row in cat_rows:
-                ref, cu = host_out[h]["catalogue"][row]
+                ref, cu, _valid = host_out[h]["catalogue"][row]
                 tid(eval_texts, ref)
                 tid(eval_texts, cu)
             for desc, per in host_out[h]["programs"].items():
@@ -177,8 +177,8 @@ def run(tier):
         rows = []  # (descriptor, ok)
         for h in hosts:
             for row in cat_rows:
-                ref, cu = host_out[h]["catalogue"][row]
-                if ref is None or cu is None:
+                ref, cu, valid_on_host = host_out[h]["catalogue"][row]
+                if ref is None or cu is None or not valid_on_host:
                     continue
                 if not parse[base]["eval"][eval_texts[ref]]:
                     continue  # the composition is not valid 3.8 source
